@@ -88,8 +88,14 @@ Bad(c) == {i \in DOMAIN c.variants : FullVerdict(c, i) # "fine"}
 
 \* what one more application of the plain rules to the observed store would add: if the observed
 \* store is not closed under the rules, these are the facts the engine failed to derive next
+\* (a diagnostic only: skipped when the observed store holds numbers on which the model's 32-bit
+\* arithmetic could overflow, e.g. after a run-away evaluation)
+Tame(got) == \A f \in got : \A i \in DOMAIN f.a :
+               /\ f.a[i][1] # "bign"
+               /\ f.a[i][1] = "n" => (f.a[i][2] < 30000 /\ f.a[i][2] > -30000)
 NextMissing(c, v) ==
   LET got == SetOf(v.got) IN
+  IF ~Tame(got) THEN {} ELSE
   (UNION {Derive(r, got) : r \in {x \in RulesOf(c) : ~IsDo(x)}}) \ got
 
 Report(c) ==
